@@ -202,7 +202,9 @@ class Case:
                 out.append(m if m else self.print_stmt(env))
             elif c < 0.87 and "lambda" in self.feat and d > 0:
                 out.append(self.lambda_let(env))
-            elif c < 0.90:
+            elif c < 0.93 and self.classes and "alias" in self.feat:
+                out.extend(self.alias_block(env))
+            elif c < 0.95:
                 out.append({"k": "assert", "e": self.expr("bool", env, 1) if (r.random() < 0.5 and not self.safe) else {"k": "lit", "ty": "bool", "b": True}})
             else:
                 out.append(self.print_stmt(env))
@@ -221,6 +223,45 @@ class Case:
 
     def norm(self, t):
         return [t[0], t[1]] if isinstance(t, tuple) else t
+
+    def opaque_cond(self, env):
+        """a condition the optimizer cannot fold: compares a global / array element / mutable local"""
+        r = self.r
+        srcs = [{"k": "glob", "n": g["n"], "ty": g["ty"]} for g in self.globals]
+        for n, t in env.items():
+            if not isinstance(t, str) and t[0] == "arr":
+                srcs.append({"k": "index", "a": n, "i": {"k": "lit", "ty": "i64", "c": 0, "o": 0}, "ty": t[1]})
+        if not srcs:
+            return self.expr("bool", env, 2)
+        a = r.choice(srcs)
+        return {"k": "cmp", "op": r.choice(["<", "<=", "==", "!=", ">", ">="]), "l": a, "r": self.lit(a["ty"], small=True), "ty": "bool"}
+
+    def alias_block(self, env):
+        """two fresh objects, a reference chosen at run time between them, a store through it, then reads through the
+        original references with no call in between (reference identity must be respected by every optimisation)"""
+        r = self.r
+        decl = r.choice(self.classes)
+        t = ["class", decl["n"]]
+        a, b, al = self.fresh(), self.fresh(), self.fresh()
+        out = []
+        for nm in (a, b):
+            out.append({"k": "let", "n": nm, "ty": t, "e": {"k": "new", "ref": True, "n": decl["n"], "fs": [[f, self.lit(ft, small=True)] for f, ft in decl["fields"]], "ty": t}})
+            env[nm] = t; self.mutable.add(nm)
+        va = {"k": "var", "n": a, "ty": t}; vb = {"k": "var", "n": b, "ty": t}
+        out.append({"k": "let", "n": al, "ty": t, "e": {"k": "if", "c": self.opaque_cond(env), "t": va, "e": vb, "ty": t}})
+        env[al] = t; self.mutable.add(al)
+        f, ft = r.choice(decl["fields"])
+        def rd(x):
+            return {"k": "fget", "e": x, "f": f, "ty": ft, "ref": True}
+        # reads into scalar locals: no call between the cached load, the store through the alias and the re-load
+        pre = [self.fresh(), self.fresh()]; post = [self.fresh(), self.fresh()]
+        for nm, x in zip(pre, (va, vb)):
+            out.append({"k": "let", "n": nm, "ty": ft, "e": rd(x)}); env[nm] = ft
+        out.append({"k": "fset", "n": al, "f": f, "ref": True, "e": self.lit(ft, small=True) if ft != "bool" else {"k": "un", "op": "!", "e": {"k": "var", "n": pre[0], "ty": "bool"}, "ty": "bool"}})
+        for nm, x in zip(post, (va, vb)):
+            out.append({"k": "let", "n": nm, "ty": ft, "e": rd(x)}); env[nm] = ft
+        out.append({"k": "print", "es": [{"k": "var", "n": nm, "ty": ft} for nm in pre + post] + [rd({"k": "var", "n": al, "ty": t})], "nl": True})
+        return out
 
     def print_stmt(self, env):
         r = self.r
@@ -531,7 +572,7 @@ def render(cases, filename="prog.dora"):
     return "\n".join(R.out) + "\n"
 
 
-ALL_FEATURES = ["chain", "fn", "rec", "array", "struct", "class", "enum", "option", "tuple", "match", "lambda", "global", "shift", "conv", "print_nonl"]
+ALL_FEATURES = ["alias", "chain", "fn", "rec", "array", "struct", "class", "enum", "option", "tuple", "match", "lambda", "global", "shift", "conv", "print_nonl"]
 
 
 def generate_cases(seed, n, features=None):
